@@ -2,7 +2,8 @@
 Geometry of C10 on RotatedPlanar3DCode, for EVERY size L_x, L_y, L_z (no lower bound is
 needed): on every edge `RotatedSweepDecoder3D.flip_edge` (branch on `z % 2`, `x % 4`, `y % 4`,
 neighbour list, `is_stabilizer(·, 'face')` filter) toggles exactly the face stabilizers
-(truncated at the boundaries by `is_qubit`) that contain the edge.
+(rows of type `'face'`, truncated at the boundaries by `is_qubit`) that contain the edge.  The
+class is not periodic: `_wrap` is the identity (`rotSeam = false`).
 -/
 import PanqecVerif.Proofs.SweepRotPlanarBase
 
@@ -91,18 +92,6 @@ theorem rotPlanar_op_vertex (a b c : Int) (pc : c % 2 = 1) (h4 : (a + b) % 4 = 2
     or_false] at hd
   rcases hd with rfl | rfl | rfl | rfl | rfl | rfl <;> rfl
 
-theorem rotIsFace_vertex (a b c : Int) (pc : c % 2 = 1) (h4 : (a + b) % 4 = 2) :
-    rotIsFace (a, b, c) = false := by
-  simp only [rotIsFace, xyMod4, h4, pc, beq_self_eq_true, Bool.and_self, Bool.not_true]
-
-theorem rotIsFace_hface (a b c : Int) (h4 : (a + b) % 4 = 0) : rotIsFace (a, b, c) = true := by
-  have e02 : ((0 : Int) == 2) = false := by decide
-  simp only [rotIsFace, xyMod4, h4, e02, Bool.false_and, Bool.not_false]
-
-theorem rotIsFace_vface (a b c : Int) (pc : c % 2 = 0) : rotIsFace (a, b, c) = true := by
-  have e01 : ((0 : Int) == 1) = false := by decide
-  simp only [rotIsFace, pc, e01, Bool.and_false, Bool.not_false]
-
 /-! ### one edge of each kind -/
 
 /-- flipping a horizontal edge with `(x + y) % 4 = 2` (axis 'x') toggles exactly the faces
@@ -110,17 +99,17 @@ theorem rotIsFace_vface (a b c : Int) (pc : c % 2 = 0) : rotIsFace (a, b, c) = t
 theorem rotPlanar_flipOK_xedge (x y z : Int)
     (hq : 1 ≤ x ∧ x < 2 * (Lx : Int) ∧ x % 2 = 1 ∧ 1 ≤ y ∧ y < 2 * (Ly : Int) ∧ y % 2 = 1 ∧
       1 ≤ z ∧ z < 2 * (Lz : Int) ∧ z % 2 = 1) (h4 : (x + y) % 4 = 2) :
-    flipOK (rotPlanar3D Lx Ly Lz) (flipFacesRot (rotPlanar3D Lx Ly Lz)) (x, y, z) = true := by
+    flipOKRot (rotPlanar3D Lx Ly Lz) (flipFacesRot (rotPlanar3D Lx Ly Lz)) (x, y, z) = true := by
   have hqmem : (x, y, z) ∈ (rotPlanar3D Lx Ly Lz).qubits := by
     rw [show (rotPlanar3D Lx Ly Lz).qubits = rotPlanarQubits Lx Ly Lz from rfl, mem_rotPlanarQubits]
     left; omega
   have hfaces : flipFacesRot (rotPlanar3D Lx Ly Lz) (x, y, z) =
       some (([(x + 1, y + 1, z), (x - 1, y - 1, z), (x, y, z + 1), (x, y, z - 1)] : List Loc).filter
         (rotPlanar3D Lx Ly Lz).isStabFace) := by
-    unfold flipFacesRot
+    rw [flipFacesRot_noSeam _ rfl]
     rw [rotRaw_xedge x y z (by omega) (by omega) (by omega) h4]
     rfl
-  apply flipOK_of_filterP _ _ _ _ _ hfaces
+  apply flipOKRot_of_filterP _ _ _ _ _ hfaces
   · simp only [List.nodup_cons, List.mem_cons, List.not_mem_nil, or_false, Prod.mk.injEq,
       List.nodup_nil, and_true, not_or, true_and, not_false_eq_true]
     omega
@@ -131,12 +120,13 @@ theorem rotPlanar_flipOK_xedge (x y z : Int)
     rcases hs with hs | hs | hs
     · -- vertex
       rw [rotIsFace_vertex a b c (by omega) (by omega),
-        faceHas_of_allZ _ _ _ (rotPlanar_op_vertex Lx Ly Lz a b c (by omega) (by omega))]
+        faceHasRot_of_not_face _ _ _ (rotIsFace_vertex a b c (by omega) (by omega))]
       simp
     · -- horizontal face
       obtain ⟨hop, hnd⟩ := rotPlanar_op_hface Lx Ly Lz a b c (by omega) (by omega)
       rw [rotIsFace_hface a b c (by omega),
-        faceHas_of_X_filter _ _ _ _ hop (by simpa using hnd) (by simp) hqmem]
+        faceHasRot_of_X_filter _ _ _ _ (rotIsFace_hface a b c (by omega)) hop (by simpa using hnd)
+          (by simp) hqmem]
       simp only [List.map_cons, List.map_nil, List.mem_cons, List.not_mem_nil, or_false,
         Prod.mk.injEq, decide_eq_true_eq, and_true]
       constructor
@@ -147,14 +137,16 @@ theorem rotPlanar_flipOK_xedge (x y z : Int)
       rw [rotIsFace_vface a b c (by omega)]
       rcases hcase with h4 | h4
       · obtain ⟨hop, hnd⟩ := rotPlanar_op_vface0 Lx Ly Lz a b c (by omega) h4
-        rw [faceHas_of_X_filter _ _ _ _ hop (by simpa using hnd) (by simp) hqmem]
+        rw [faceHasRot_of_X_filter _ _ _ _ (rotIsFace_vface a b c (by omega)) hop
+          (by simpa using hnd) (by simp) hqmem]
         simp only [List.map_cons, List.map_nil, List.mem_cons, List.not_mem_nil, or_false,
           Prod.mk.injEq, decide_eq_true_eq, and_true]
         constructor
         · rintro (h | h | h | h) <;> omega
         · rintro (h | h | h | h) <;> omega
       · obtain ⟨hop, hnd⟩ := rotPlanar_op_vface2 Lx Ly Lz a b c (by omega) h4
-        rw [faceHas_of_X_filter _ _ _ _ hop (by simpa using hnd) (by simp) hqmem]
+        rw [faceHasRot_of_X_filter _ _ _ _ (rotIsFace_vface a b c (by omega)) hop
+          (by simpa using hnd) (by simp) hqmem]
         simp only [List.map_cons, List.map_nil, List.mem_cons, List.not_mem_nil, or_false,
           Prod.mk.injEq, decide_eq_true_eq, and_true]
         constructor
@@ -166,17 +158,17 @@ theorem rotPlanar_flipOK_xedge (x y z : Int)
 theorem rotPlanar_flipOK_yedge (x y z : Int)
     (hq : 1 ≤ x ∧ x < 2 * (Lx : Int) ∧ x % 2 = 1 ∧ 1 ≤ y ∧ y < 2 * (Ly : Int) ∧ y % 2 = 1 ∧
       1 ≤ z ∧ z < 2 * (Lz : Int) ∧ z % 2 = 1) (h4 : (x + y) % 4 = 0) :
-    flipOK (rotPlanar3D Lx Ly Lz) (flipFacesRot (rotPlanar3D Lx Ly Lz)) (x, y, z) = true := by
+    flipOKRot (rotPlanar3D Lx Ly Lz) (flipFacesRot (rotPlanar3D Lx Ly Lz)) (x, y, z) = true := by
   have hqmem : (x, y, z) ∈ (rotPlanar3D Lx Ly Lz).qubits := by
     rw [show (rotPlanar3D Lx Ly Lz).qubits = rotPlanarQubits Lx Ly Lz from rfl, mem_rotPlanarQubits]
     left; omega
   have hfaces : flipFacesRot (rotPlanar3D Lx Ly Lz) (x, y, z) =
       some (([(x + 1, y - 1, z), (x - 1, y + 1, z), (x, y, z + 1), (x, y, z - 1)] : List Loc).filter
         (rotPlanar3D Lx Ly Lz).isStabFace) := by
-    unfold flipFacesRot
+    rw [flipFacesRot_noSeam _ rfl]
     rw [rotRaw_yedge x y z (by omega) (by omega) (by omega) h4]
     rfl
-  apply flipOK_of_filterP _ _ _ _ _ hfaces
+  apply flipOKRot_of_filterP _ _ _ _ _ hfaces
   · simp only [List.nodup_cons, List.mem_cons, List.not_mem_nil, or_false, Prod.mk.injEq,
       List.nodup_nil, and_true, not_or, true_and, not_false_eq_true]
     omega
@@ -187,12 +179,13 @@ theorem rotPlanar_flipOK_yedge (x y z : Int)
     rcases hs with hs | hs | hs
     · -- vertex
       rw [rotIsFace_vertex a b c (by omega) (by omega),
-        faceHas_of_allZ _ _ _ (rotPlanar_op_vertex Lx Ly Lz a b c (by omega) (by omega))]
+        faceHasRot_of_not_face _ _ _ (rotIsFace_vertex a b c (by omega) (by omega))]
       simp
     · -- horizontal face
       obtain ⟨hop, hnd⟩ := rotPlanar_op_hface Lx Ly Lz a b c (by omega) (by omega)
       rw [rotIsFace_hface a b c (by omega),
-        faceHas_of_X_filter _ _ _ _ hop (by simpa using hnd) (by simp) hqmem]
+        faceHasRot_of_X_filter _ _ _ _ (rotIsFace_hface a b c (by omega)) hop (by simpa using hnd)
+          (by simp) hqmem]
       simp only [List.map_cons, List.map_nil, List.mem_cons, List.not_mem_nil, or_false,
         Prod.mk.injEq, decide_eq_true_eq, and_true]
       constructor
@@ -203,14 +196,16 @@ theorem rotPlanar_flipOK_yedge (x y z : Int)
       rw [rotIsFace_vface a b c (by omega)]
       rcases hcase with h4 | h4
       · obtain ⟨hop, hnd⟩ := rotPlanar_op_vface0 Lx Ly Lz a b c (by omega) h4
-        rw [faceHas_of_X_filter _ _ _ _ hop (by simpa using hnd) (by simp) hqmem]
+        rw [faceHasRot_of_X_filter _ _ _ _ (rotIsFace_vface a b c (by omega)) hop
+          (by simpa using hnd) (by simp) hqmem]
         simp only [List.map_cons, List.map_nil, List.mem_cons, List.not_mem_nil, or_false,
           Prod.mk.injEq, decide_eq_true_eq, and_true]
         constructor
         · rintro (h | h | h | h) <;> omega
         · rintro (h | h | h | h) <;> omega
       · obtain ⟨hop, hnd⟩ := rotPlanar_op_vface2 Lx Ly Lz a b c (by omega) h4
-        rw [faceHas_of_X_filter _ _ _ _ hop (by simpa using hnd) (by simp) hqmem]
+        rw [faceHasRot_of_X_filter _ _ _ _ (rotIsFace_vface a b c (by omega)) hop
+          (by simpa using hnd) (by simp) hqmem]
         simp only [List.map_cons, List.map_nil, List.mem_cons, List.not_mem_nil, or_false,
           Prod.mk.injEq, decide_eq_true_eq, and_true]
         constructor
@@ -222,17 +217,17 @@ theorem rotPlanar_flipOK_yedge (x y z : Int)
 theorem rotPlanar_flipOK_zedge (x y z : Int)
     (hq : 2 ≤ x ∧ x < 2 * (Lx : Int) ∧ x % 2 = 0 ∧ 0 ≤ y ∧ y < 2 * (Ly : Int) + 1 ∧ y % 2 = 0 ∧
       2 ≤ z ∧ z < 2 * (Lz : Int) ∧ z % 2 = 0 ∧ (x + y) % 4 = 2) :
-    flipOK (rotPlanar3D Lx Ly Lz) (flipFacesRot (rotPlanar3D Lx Ly Lz)) (x, y, z) = true := by
+    flipOKRot (rotPlanar3D Lx Ly Lz) (flipFacesRot (rotPlanar3D Lx Ly Lz)) (x, y, z) = true := by
   have hqmem : (x, y, z) ∈ (rotPlanar3D Lx Ly Lz).qubits := by
     rw [show (rotPlanar3D Lx Ly Lz).qubits = rotPlanarQubits Lx Ly Lz from rfl, mem_rotPlanarQubits]
     right; omega
   have hfaces : flipFacesRot (rotPlanar3D Lx Ly Lz) (x, y, z) =
       some (([(x + 1, y + 1, z), (x - 1, y - 1, z), (x - 1, y + 1, z), (x + 1, y - 1, z)] : List Loc).filter
         (rotPlanar3D Lx Ly Lz).isStabFace) := by
-    unfold flipFacesRot
+    rw [flipFacesRot_noSeam _ rfl]
     rw [rotRaw_zedge x y z (by omega)]
     rfl
-  apply flipOK_of_filterP _ _ _ _ _ hfaces
+  apply flipOKRot_of_filterP _ _ _ _ _ hfaces
   · simp only [List.nodup_cons, List.mem_cons, List.not_mem_nil, or_false, Prod.mk.injEq,
       List.nodup_nil, and_true, not_or, true_and, not_false_eq_true]
     omega
@@ -243,12 +238,13 @@ theorem rotPlanar_flipOK_zedge (x y z : Int)
     rcases hs with hs | hs | hs
     · -- vertex
       rw [rotIsFace_vertex a b c (by omega) (by omega),
-        faceHas_of_allZ _ _ _ (rotPlanar_op_vertex Lx Ly Lz a b c (by omega) (by omega))]
+        faceHasRot_of_not_face _ _ _ (rotIsFace_vertex a b c (by omega) (by omega))]
       simp
     · -- horizontal face
       obtain ⟨hop, hnd⟩ := rotPlanar_op_hface Lx Ly Lz a b c (by omega) (by omega)
       rw [rotIsFace_hface a b c (by omega),
-        faceHas_of_X_filter _ _ _ _ hop (by simpa using hnd) (by simp) hqmem]
+        faceHasRot_of_X_filter _ _ _ _ (rotIsFace_hface a b c (by omega)) hop (by simpa using hnd)
+          (by simp) hqmem]
       simp only [List.map_cons, List.map_nil, List.mem_cons, List.not_mem_nil, or_false,
         Prod.mk.injEq, decide_eq_true_eq, and_true]
       constructor
@@ -259,14 +255,16 @@ theorem rotPlanar_flipOK_zedge (x y z : Int)
       rw [rotIsFace_vface a b c (by omega)]
       rcases hcase with h4 | h4
       · obtain ⟨hop, hnd⟩ := rotPlanar_op_vface0 Lx Ly Lz a b c (by omega) h4
-        rw [faceHas_of_X_filter _ _ _ _ hop (by simpa using hnd) (by simp) hqmem]
+        rw [faceHasRot_of_X_filter _ _ _ _ (rotIsFace_vface a b c (by omega)) hop
+          (by simpa using hnd) (by simp) hqmem]
         simp only [List.map_cons, List.map_nil, List.mem_cons, List.not_mem_nil, or_false,
           Prod.mk.injEq, decide_eq_true_eq, and_true]
         constructor
         · rintro (h | h | h | h) <;> omega
         · rintro (h | h | h | h) <;> omega
       · obtain ⟨hop, hnd⟩ := rotPlanar_op_vface2 Lx Ly Lz a b c (by omega) h4
-        rw [faceHas_of_X_filter _ _ _ _ hop (by simpa using hnd) (by simp) hqmem]
+        rw [faceHasRot_of_X_filter _ _ _ _ (rotIsFace_vface a b c (by omega)) hop
+          (by simpa using hnd) (by simp) hqmem]
         simp only [List.map_cons, List.map_nil, List.mem_cons, List.not_mem_nil, or_false,
           Prod.mk.injEq, decide_eq_true_eq, and_true]
         constructor
@@ -277,8 +275,8 @@ theorem rotPlanar_flipOK_zedge (x y z : Int)
     `RotatedSweepDecoder3D.flip_edge` toggles exactly the face stabilizers that anticommute
     with Z on that edge. -/
 theorem rotPlanar_flipTableOK :
-    flipTableOK (rotPlanar3D Lx Ly Lz) (flipFacesRot (rotPlanar3D Lx Ly Lz)) = true := by
-  unfold flipTableOK
+    flipTableOKRot (rotPlanar3D Lx Ly Lz) (flipFacesRot (rotPlanar3D Lx Ly Lz)) = true := by
+  unfold flipTableOKRot
   rw [List.all_eq_true]
   rintro ⟨x, y, z⟩ hq
   rw [show (rotPlanar3D Lx Ly Lz).qubits = rotPlanarQubits Lx Ly Lz from rfl, mem_rotPlanarQubits] at hq
